@@ -60,7 +60,7 @@ CHECKS = {
              text='FeatureConstruction.tla applies Expand/Sub/Interact/Noise in pipeline order to every frame of a bounded space and model-checks Additive, OneValuePerRow, MultiValueRule, OneSidedRule, TwoSidedRule, TargetControlIsLabel; every (frame, flags) state is replayed through the real compute_batch_ranking and the constructed frame compared column by column with the specification.',
              note='frames: label + multi-value column + two categorical columns, 3 rows; the order of appended columns is not constrained'),
 
- 'C12': dict(sec='3/C12', tech='TLC enumeration of Transformers.tla (preset-list loop, keep/drop rule on symbol multisets, fw sqrt family with exact integer rounding) + each enumerated case bound to the real FeatureTransformerGeneric; named-formula oracle for the transcendental leaves',
+ 'C12': dict(sec='3/C12', tech='TLC enumeration of Transformers.tla (preset-list loop, keep/drop rule on symbol multisets, fw sqrt family with exact integer rounding, round-half-to-even at exact ties) + each enumerated case bound to the real FeatureTransformerGeneric; named-formula oracle for the transcendental leaves',
              text='Transformers.tla has three machines: the constructor loop over the preset list (CollectionIsUnion, with the presets extracted from the vault at check time), the keep/drop rule on every multiset of output symbols incl. the exact 80%/75% boundaries, and the fw sqrt family whose rounding is decided exactly in the integers from the resolution and threshold in the NAME; every list, multiset and (resolution, threshold, x) cell is compared with the real code; log-kind and minimal/default formulas use a scalar oracle written from the transformer names.',
              note='log/default formulas are outside TLC (math library); ambiguous NaN-only-plus-one-symbol columns are not judged'),
 
@@ -91,7 +91,7 @@ for pid in ids:
             'replay_cmd_template': f'./check {pid} --replay {{path}}',
             'engine': 'tlc+replay',
             'level_claimed': {'category': 'model_checking', 'text': c['text'], 'design_ref': c['sec']},
-            'level_note': c['note'] + '; the seeded input families of the drivers were extended after seven rounds of independent seeded changes (DESIGN.md 9.5, 9.8; seeded/<id>/)',
+            'level_note': c['note'] + '; the seeded input families of the drivers were extended after ten rounds of independent seeded changes (DESIGN.md 9.5, 9.8; seeded/<id>/)',
             'technique': c['tech'],
         })
 claimed = {c['property_id'] for c in checks}
